@@ -21,10 +21,13 @@ Open Scope N_scope.
 Record crypto := mkCrypto {
   hash : Type;                      (* a stored bcrypt hash (salt and cost included) *)
   hash_eqb : hash -> hash -> bool;
-  gen : N -> N -> hash;             (* bcrypt.GenerateFromPassword: salt, password *)
+  gen : N -> N -> N -> hash;        (* bcrypt.GenerateFromPassword: cost, salt, password *)
+  cost : hash -> N;                 (* bcrypt.Cost *)
   verify : hash -> N -> bool;       (* bcrypt.CompareHashAndPassword = nil *)
   digest : N -> N;                  (* sha1 of the password *)
   too_long : N -> bool;             (* len(password) > 72: GenerateFromPassword refuses *)
+  bkey : N -> N;                    (* what bcrypt keys on: the first 72 bytes of the cyclic repetition of
+                                       password ++ NUL (theorems only, never used by the model) *)
   plain : N -> bool                 (* at most 72 bytes and no NUL byte: the passwords on which bcrypt is
                                        injective (it reads the 72-byte cyclic expansion of password ++ NUL);
                                        used by the theorems only, never by the model *)
@@ -55,15 +58,22 @@ End Assoc.
 Definition cookie_checks_disabled : bool := true.
 
 Inductive op :=
-| CreateUser (u p salt : N)                 (* auth.NewUser + Save of a new document *)
-| SetPassword (u p salt : N)                (* GetUser; SetPassword; Save *)
+| CreateUser (u p salt c : N)               (* auth.NewUser + Save of a new document; c = BcryptCost used *)
+| SetPassword (u p salt c : N)              (* GetUser; SetPassword; Save *)
 | SetDisabled (u : N) (b : bool)            (* GetUser; SetDisabled; Save *)
 | InvalidateSessions (u : N)                (* GetUser; UpdateSessionUUID; Save *)
 | DeleteUser (u : N)                        (* GetUser; DeleteUser *)
 | CreateSession (u sid ttl : N) (onetime : bool)   (* GetUser; CreateSession; sid = the id generated *)
 | DeleteSession (sid : N)
 | Advance (dt : N)                          (* time passes *)
-| AuthPassword (u p : N) (ev : option (N * N * N))  (* AuthenticateUser; ev = evicted (pw,salt,pw0) *)
+| AuthPassword (u p : N) (ev : option (N * N * N * N))  (* AuthenticateUser, bcryptCostChanged = false;
+                                               ev = evicted cache entry (pw, cost, salt, pw0) *)
+(* AuthenticateUser on an Authenticator whose bcrypt cost was changed to c (auth.go rehashPassword), split into
+   its storage steps: LoginRehash = GetUser + the password check + the callback on the caller's copy;
+   RehashSave = one CAS Save attempt of casUpdatePrincipal (on a CAS mismatch: the reload).  Anything may be
+   scheduled between them; [a] names the request in flight. *)
+| LoginRehash (a u p : N) (ev : option (N * N * N * N)) (c : N)
+| RehashSave (a salt : N)
 | AuthCookie (sid : N)                      (* AuthenticateCookie *)
 | AuthOneTime (sid : N)                     (* AuthenticateOneTimeSession *)
 | GetSession (sid : N).
@@ -75,7 +85,8 @@ Inductive out :=
 | OErr (e : err)
 | OPass (who : option N) (cache_len : N)    (* AuthenticateUser result, cachedHashes.Len() after *)
 | OCookie (who : option N) (refreshed : bool)  (* AuthenticateCookie result, Set-Cookie written *)
-| OUser (who : N).                          (* AuthenticateOneTimeSession / GetSession success *)
+| OUser (who : N)                           (* AuthenticateOneTimeSession / GetSession success *)
+| ORehash (wrote : bool).                   (* did this Save attempt write the re-hashed password *)
 
 (* who was authenticated by this call, if anybody *)
 Definition authed (o : out) : option N :=
@@ -93,6 +104,7 @@ Section Model.
     u_hash : option (hash C);   (* PasswordHash_ ; None = no hash stored (empty password) *)
     u_disabled : bool;          (* Disabled_ *)
     u_uuid : N;                 (* SessionUUID_ : the credential epoch *)
+    u_ver : N;                  (* CAS of the user document *)
     u_pw : N                    (* GHOST: the password last set; never read by [step] decisions *)
   }.
 
@@ -104,6 +116,9 @@ Section Model.
     s_onetime : bool            (* OneTime *)
   }.
 
+  (* a login whose re-hash is still to be saved: user, presented password, configured cost, CAS it read *)
+  Record pend := mkPend { p_user : N; p_pw : N; p_cost : N; p_ver : N }.
+
   Definition key : Type := (N * hash C)%type.   (* authKey: sha1(password) ++ bcrypt hash *)
 
   Record state := mkState {
@@ -112,10 +127,11 @@ Section Model.
     cache : list key;           (* cachedHashes *)
     cap : N;                    (* capacity of the cache (kMaxCacheSize) *)
     now : N;
-    next_uuid : N
+    next_uuid : N;              (* fresh-value counter: session UUIDs and document CAS values *)
+    pending : list (N * pend)
   }.
 
-  Definition init (capacity : N) : state := mkState [] [] [] capacity 0 1.
+  Definition init (capacity : N) : state := mkState [] [] [] capacity 0 1 [].
 
   (* ---- the verified-password cache ---- *)
   Definition key_eqb (a b : key) : bool := (fst a =? fst b) && hash_eqb C (snd a) (snd b).
@@ -130,27 +146,50 @@ Section Model.
       (match ev with Some e => kremove e c | None => c end) ++ [k]
     else c ++ [k].
 
-  Definition ev_key (ev : option (N * N * N)) : option key :=
+  Definition ev_key (ev : option (N * N * N * N)) : option key :=
     match ev with
-    | Some (d, salt, p0) => Some (digest C d, gen C salt p0)
+    | Some (d, c, salt, p0) => Some (digest C d, gen C c salt p0)
     | None => None
     end.
 
   (* ---- helpers ---- *)
+  (* every Save of a user document takes the next fresh value as its CAS *)
   Definition with_users (st : state) (us : list (N * user)) : state :=
-    mkState us (sessions st) (cache st) (cap st) (now st) (next_uuid st).
-  Definition with_users_fresh (st : state) (us : list (N * user)) : state :=
-    mkState us (sessions st) (cache st) (cap st) (now st) (next_uuid st + 1).
+    mkState us (sessions st) (cache st) (cap st) (now st) (next_uuid st + 1) (pending st).
+  Definition with_users_del (st : state) (us : list (N * user)) : state :=
+    mkState us (sessions st) (cache st) (cap st) (now st) (next_uuid st) (pending st).
   Definition with_sessions (st : state) (ss : list (N * session)) : state :=
-    mkState (users st) ss (cache st) (cap st) (now st) (next_uuid st).
+    mkState (users st) ss (cache st) (cap st) (now st) (next_uuid st) (pending st).
   Definition with_cache (st : state) (c : list key) : state :=
-    mkState (users st) (sessions st) c (cap st) (now st) (next_uuid st).
+    mkState (users st) (sessions st) c (cap st) (now st) (next_uuid st) (pending st).
   Definition with_now (st : state) (t : N) : state :=
-    mkState (users st) (sessions st) (cache st) (cap st) t (next_uuid st).
+    mkState (users st) (sessions st) (cache st) (cap st) t (next_uuid st) (pending st).
+  Definition with_pending (st : state) (ps : list (N * pend)) : state :=
+    mkState (users st) (sessions st) (cache st) (cap st) (now st) (next_uuid st) ps.
 
   (* SetPassword: "" stores no hash *)
-  Definition new_hash (p salt : N) : option (hash C) :=
-    if p =? 0 then None else Some (gen C salt p).
+  Definition new_hash (p salt c : N) : option (hash C) :=
+    if p =? 0 then None else Some (gen C c salt p).
+
+  (* GetUser + AuthenticateWithReason (through the verified-password cache): new state (cache), who *)
+  Definition pass_check (st : state) (u p : N) (ev : option (N * N * N * N)) : state * option N :=
+    match alookup u (users st) with
+    | None => (st, None)
+    | Some usr =>
+        if u_disabled usr then (st, None)
+        else match u_hash usr with
+             | None => (st, if p =? 0 then Some u else None)
+             | Some h =>
+                 let k := (digest C p, h) in
+                 if kmem k (cache st) then (st, Some u)
+                 else if verify C h p then (with_cache st (cache_put (cap st) (ev_key ev) k (cache st)), Some u)
+                 else (st, None)
+             end
+    end.
+
+  (* the callback of rehashPassword: re-hash iff the document has a hash whose cost differs from the configured one *)
+  Definition wants_rehash (usr : user) (c : N) : bool :=
+    match u_hash usr with Some h => negb (cost C h =? c) | None => false end.
 
   (* datastore.Get of the session document: the store has removed it once it expired *)
   Definition get_session (st : state) (sid : N) : option session :=
@@ -183,33 +222,33 @@ Section Model.
 
   Definition step_gen (ccd : bool) (st : state) (o : op) : state * out :=
     match o with
-    | CreateUser u p salt =>
+    | CreateUser u p salt c =>
         if too_long C p then (st, OErr EPwTooLong)
         else match alookup u (users st) with
              | Some _ => (st, OErr EExists)
-             | None => (with_users_fresh st (aset u (mkUser (new_hash p salt) false (next_uuid st) p) (users st)), ODone)
+             | None => (with_users st (aset u (mkUser (new_hash p salt c) false (next_uuid st) (next_uuid st) p) (users st)), ODone)
              end
-    | SetPassword u p salt =>
+    | SetPassword u p salt c =>
         match alookup u (users st) with
         | None => (st, OErr ENoUser)
         | Some usr =>
             if too_long C p then (st, OErr EPwTooLong)
-            else (with_users_fresh st (aset u (mkUser (new_hash p salt) (u_disabled usr) (next_uuid st) p) (users st)), ODone)
+            else (with_users st (aset u (mkUser (new_hash p salt c) (u_disabled usr) (next_uuid st) (next_uuid st) p) (users st)), ODone)
         end
     | SetDisabled u b =>
         match alookup u (users st) with
         | None => (st, OErr ENoUser)
-        | Some usr => (with_users st (aset u (mkUser (u_hash usr) b (u_uuid usr) (u_pw usr)) (users st)), ODone)
+        | Some usr => (with_users st (aset u (mkUser (u_hash usr) b (u_uuid usr) (next_uuid st) (u_pw usr)) (users st)), ODone)
         end
     | InvalidateSessions u =>
         match alookup u (users st) with
         | None => (st, OErr ENoUser)
-        | Some usr => (with_users_fresh st (aset u (mkUser (u_hash usr) (u_disabled usr) (next_uuid st) (u_pw usr)) (users st)), ODone)
+        | Some usr => (with_users st (aset u (mkUser (u_hash usr) (u_disabled usr) (next_uuid st) (next_uuid st) (u_pw usr)) (users st)), ODone)
         end
     | DeleteUser u =>
         match alookup u (users st) with
         | None => (st, OErr ENoUser)
-        | Some _ => (with_users st (adel u (users st)), ODone)
+        | Some _ => (with_users_del st (adel u (users st)), ODone)
         end
     | CreateSession u sid ttl onetime =>
         match alookup u (users st) with
@@ -226,20 +265,37 @@ Section Model.
         end
     | Advance dt => (with_now st (now st + dt), ODone)
     | AuthPassword u p ev =>
-        match alookup u (users st) with
-        | None => (st, OPass None (len (cache st)))
-        | Some usr =>
-            if u_disabled usr then (st, OPass None (len (cache st)))
-            else match u_hash usr with
-                 | None => (st, OPass (if p =? 0 then Some u else None) (len (cache st)))
-                 | Some h =>
-                     let k := (digest C p, h) in
-                     if kmem k (cache st) then (st, OPass (Some u) (len (cache st)))
-                     else if verify C h p then
-                       let c := cache_put (cap st) (ev_key ev) k (cache st) in
-                       (with_cache st c, OPass (Some u) (len c))
-                     else (st, OPass None (len (cache st)))
-                 end
+        let (st1, w) := pass_check st u p ev in (st1, OPass w (len (cache st1)))
+    | LoginRehash a u p ev c =>
+        let (st1, w) := pass_check st u p ev in
+        let st2 :=
+          match w, alookup u (users st) with
+          | Some _, Some usr =>
+              (* the callback on the caller's copy; SetPassword refuses a password of more than 72 bytes *)
+              if wants_rehash usr c && negb (too_long C p)
+              then with_pending st1 (aset a (mkPend u p c (u_ver usr)) (pending st1)) else st1
+          | _, _ => st1
+          end in
+        (st2, OPass w (len (cache st1)))
+    | RehashSave a salt =>
+        match alookup a (pending st) with
+        | None => (st, ORehash false)
+        | Some pd =>
+            let drop := with_pending st (adel a (pending st)) in
+            match alookup (p_user pd) (users st) with
+            | None => (drop, ORehash false)                       (* reload finds nothing: ErrNotFound *)
+            | Some usr =>
+                if u_ver usr =? p_ver pd then
+                  (* the copy in hand is the stored document: the callback decides, the CAS Save succeeds *)
+                  if wants_rehash usr (p_cost pd) then
+                    (with_users drop (aset (p_user pd)
+                        (mkUser (new_hash (p_pw pd) salt (p_cost pd)) (u_disabled usr) (next_uuid st) (next_uuid st) (p_pw pd))
+                        (users st)), ORehash true)
+                  else (drop, ORehash false)
+                else
+                  (* CAS mismatch: reload the user, try again later *)
+                  (with_pending st (aset a (mkPend (p_user pd) (p_pw pd) (p_cost pd) (u_ver usr)) (pending st)), ORehash false)
+            end
         end
     | AuthCookie sid =>
         match get_session st sid with
@@ -303,7 +359,10 @@ Arguments cap {C}.
 Arguments now {C}.
 Arguments next_uuid {C}.
 Arguments with_users {C}.
-Arguments with_users_fresh {C}.
+Arguments with_users_del {C}.
+Arguments with_pending {C}.
+Arguments pending {C}.
+Arguments u_ver {C}.
 Arguments with_sessions {C}.
 Arguments with_cache {C}.
 Arguments with_now {C}.
